@@ -16,8 +16,10 @@ swapped / missing / rebound arguments, vectorise not in tail position, unknown k
 condition shape, unstructured control flow) becomes `Other` or an opaque condition,
 both of which make `vec_complete` false for the paths concerned.
 
-Also emitted: the curated table = elements.yaml `vectorise: true` entries whose
-function has a recognised `Vec` leaf; documented-vectorising entries outside it are
+Also emitted: the curated table = elements.yaml `vectorise: true` entries backed by
+a function of arity 1 or 2 that calls `vectorise` at all (so an element whose
+fallback is no longer recognised stays in the table and fails there);
+documented-vectorising entries outside it are
 returned (with the reason) in the json so the check reports them as covered by the
 dynamic search only.  And `doc_overloads`: the `overloads:` keys elements.yaml
 documents for the curated elements (num/str/lst/fun/any), from which the model
@@ -642,11 +644,11 @@ def analyse(repo):
             uncovered.append({"key": d["key"], "name": d["name"], "reason": "documented but no table entry"})
         elif r["tree"] is None:
             uncovered.append({"key": d["key"], "name": d["name"], "fn": r["fn"], "arity": r["arity"], "reason": r["skip"]})
-        elif not r["has_vec"]:
-            why = sorted({l["why"] for l in leaves(r["tree"]) if l["leaf"] == "Other" and l["why"]})
+        elif not mentions(fns[r["fn"]], "vectorise"):
             uncovered.append({"key": d["key"], "name": d["name"], "fn": r["fn"], "arity": r["arity"],
-                              "reason": "no recognised `vectorise(self, args)` fallback" + (": " + "; ".join(why) if why else "")})
+                              "reason": "the function never calls vectorise"})
         else:
+            # in the table even when no fallback is recognised: entry_ok then fails
             curated.append(d["key"])
     doc_ov, odd = read_doc_overloads(repo)
     doc_exempt, strict_bad = [], []
@@ -682,8 +684,8 @@ def emit(an):
         s += (f"Definition {nm} : dentry :=\n  {{| de_key := {G.cstr(r['key'])}; de_fn := {G.cstr(r['fn'])}; de_arity := {r['arity']}%nat;\n"
               f"     de_tree :=\n    {c_tree(r['tree'])} |}}.\n")
     s += "Definition dispatch : list dentry :=\n  [" + "; ".join(names.values()) + "].\n"
-    s += ("(* elements.yaml `vectorise: true` entries whose function has a recognised\n"
-          "   `vectorise(self, args)` fallback *)\n")
+    s += ("(* elements.yaml `vectorise: true` entries backed by a function of arity 1 or 2\n"
+          "   that calls vectorise *)\n")
     s += "Definition curated : list dentry :=\n  [" + "; ".join(names[k] for k in an["curated"]) + "].\n"
     s += "(* the `overloads:` keys elements.yaml documents for the curated elements *)\n"
     rows = []
